@@ -179,8 +179,8 @@
                                          remove_invalid_vertices; eb_core for tables with C13's invariants, eb_decode_of for
                                          CornerTable::Create tables under size bound + G3) UNDER ONE PREMISE: [start_ok_g] - the
                                          start-face phase: the decoder's final stack has one entry per start-face bit, and for an
-                                         interior bit the entry's face is glued to the recorded start face.  (Decidable:
-                                         [start_ok_b]; proved for one bit - C01_ebsim_roundtrip_events_1 - and without events.)
+                                         interior bit the entry's face is glued to the recorded start face.  (The premise is
+                                         discharged by C01_ebsim_start_ok; these two statements are kept as the intermediate step.)
       C01_ebsim_trace_ledger / C01_ebsim_start_ok   (Proofs/EbTraceLedger_proofs.v, EbSimEvEncM_proofs.v)
                                          proved: the LEDGER of the runs, by a joint induction over the fold of EncodeConnectivity
                                          (the trace fold together with EbEncoder_proofs.ECinv of the erased state at every
@@ -203,6 +203,10 @@
                                          state machine + compaction) for the tables of CornerTable::Create, under the size bound
                                          and guard G3 ONLY (the premises of C09_ebenc_stream_never_rejected_by_guards_partial;
                                          G3 is not a consequence of C13's invariants).
+      C01_ebsim_trace                    proved: the simulation ALONG THE TRACE for every encoding ([simM]): at configuration i the
+                                         decoder run on the last k = ns - i symbols is in SIM, its stack = tip corners of
+                                         [topsE k] = current face + the encoder's alive entries + one entry per later run, pending
+                                         events [REM k], registered split corners [SPL k]
     Nothing of the round trip on the MODEL is left open.  (The correspondence of the model with the C++ functions is the
     matter of the differential harnesses h_c01 / h_c09, not of this file.) *)
 From Coq Require Import ZArith List Bool.
@@ -979,6 +983,20 @@ Theorem C01_ebsim_roundtrip_ct : forall faces t o rm, ct_create faces = Some t -
   exists n s, eb_decode_of o rm = Edgebreaker.Ok (n, s) /\ eb_iso (ct_c2v t) (ct_opp t) (o_pcc o) (Edgebreaker.c2v s) (Edgebreaker.copp s).
 Proof. exact ebsim_roundtrip_ct. Qed.
 Print Assumptions C01_ebsim_roundtrip_ct.
+
+Theorem C01_ebsim_trace : forall c2v opp nf nv niso ndeg o tr rm maxv,
+  length c2v = 3 * nf -> opp_ok c2v opp -> (forall c, c < 3 * nf -> vtx c2v c < nv) -> one_fan c2v opp ->
+  eb_encode_tr c2v opp nv niso ndeg = EOk (o, tr) ->
+  (Z.of_nat (length (o_syms o)) < 2147483648)%Z -> (cntv (rev (o_syms o)) <= maxv)%Z ->
+  let ns := length (o_syms o) in
+  let NC := (3 * Z.of_nat (length (o_pcc o)))%Z in
+  length tr = ns /\
+  forall i cf, nth_error tr i = Some cf ->
+    length (syms (cf_st cf)) = i /\
+    exists d, Edgebreaker.sym_loop NC maxv rm (Z.of_nat ns) (firstn (ns - i) (rev (o_syms o))) 0 (Edgebreaker.init_st (o_events o)) = Edgebreaker.Ok d /\
+              simM c2v opp o tr NC maxv cf d.
+Proof. exact ebsim_trace. Qed.
+Print Assumptions C01_ebsim_trace.
 
 Theorem C01_ebsim_ndp_check_sound : forall opp tr, ndp_b opp tr = true -> ndp opp tr.
 Proof. exact ndp_b_sound. Qed.
